@@ -639,6 +639,10 @@ func (b *bitstream) ReadTimestamp() (Timestamp, error) {
 	}
 	length -= olength
 
+	if length == 0 {
+		return Timestamp{}, &SyntaxError{"invalid timestamp - the year is missing", b.pos}
+	}
+
 	ts := []int{1, 1, 1, 0, 0, 0}
 	precision := TimestampNoPrecision
 	for i := 0; length > 0 && i < 6 && precision < TimestampPrecisionSecond; i++ {
@@ -696,6 +700,12 @@ func (b *bitstream) readNsecs(length uint64) (int, bool, uint8, error) {
 	d, err := b.readDecimal(length)
 	if err != nil {
 		return 0, false, 0, err
+	}
+
+	// The fraction of a second is never negative.
+	if d.Sign() < 0 {
+		msg := fmt.Sprintf("invalid timestamp fraction: %v", d)
+		return 0, false, 0, &SyntaxError{msg, b.pos}
 	}
 
 	// A fraction whose exponent cannot be shifted by nine places is certainly not within [0, 1);
